@@ -21,6 +21,12 @@ Lemma multi_first_answer_wins_ok : multi_first_answer_wins = true.
 Proof. reflexivity. Qed.
 Lemma pooled_overrides_get_dist_ok : pooled_overrides_get_dist = false.
 Proof. reflexivity. Qed.
+Lemma index_merge_ordered_ok : index_merge_ordered = true /\ extra_merge_ordered = true.
+Proof. split; reflexivity. Qed.
+Lemma merge_guarded_ok : merge_guarded_by_file_options = true.
+Proof. reflexivity. Qed.
+Lemma build_repo_gets_merged_ok : build_repo_gets_merged_urls = true.
+Proof. reflexivity. Qed.
 
 (* ------------------------------------------------------------------------------------ *)
 (* MultiRepository.get_dist over leaves                                                  *)
@@ -297,6 +303,88 @@ Proof.
 Qed.
 
 (* ------------------------------------------------------------------------------------ *)
+(* compile_main: order-preserving union of command-line and file-declared index URLs      *)
+
+Definition notin (a : list string) (y : string) : bool := negb (existsb (String.eqb y) a).
+Definition neq (x y : string) : bool := negb (String.eqb x y).
+
+Lemma dedup_in l y : In y (dedup l) <-> In y l.
+Proof.
+  induction l as [|x r IH]; cbn; [tauto|]. rewrite filter_In, IH.
+  destruct (String.eqb_spec x y) as [->|Hne]; cbn; [tauto|]. intuition congruence.
+Qed.
+
+Lemma dedup_nodup l : NoDup (dedup l).
+Proof.
+  induction l as [|x r IH]; cbn; constructor.
+  - rewrite filter_In. intros [_ H]. rewrite String.eqb_refl in H. discriminate.
+  - apply NoDup_filter. exact IH.
+Qed.
+
+Lemma filter_filter {A} (f g : A -> bool) l : filter f (filter g l) = filter (fun y => g y && f y) l.
+Proof.
+  induction l as [|x l IH]; cbn; [reflexivity|]. destruct (g x); cbn; [destruct (f x)|]; rewrite IH; reflexivity.
+Qed.
+
+Lemma filter_all {A} (f : A -> bool) l : (forall y, In y l -> f y = true) -> filter f l = l.
+Proof.
+  induction l as [|x l IH]; cbn; intros H; [reflexivity|].
+  rewrite (H x (or_introl eq_refl)). f_equal. apply IH. intros y Hy. apply H. right; exact Hy.
+Qed.
+
+Lemma dedup_app a b : dedup (a ++ b) = dedup a ++ filter (notin a) (dedup b).
+Proof.
+  induction a as [|x a IH]; cbn [app dedup].
+  - cbn. symmetry. apply filter_all. reflexivity.
+  - rewrite IH, filter_app, filter_filter. cbn [app]. f_equal. f_equal.
+    apply filter_ext. intros y. unfold notin. cbn [existsb].
+    rewrite (String.eqb_sym y x). destruct (String.eqb x y), (existsb (String.eqb y) a); reflexivity.
+Qed.
+
+Lemma dedup_id l : NoDup l -> dedup l = l.
+Proof.
+  induction l as [|x r IH]; cbn; intros H; [reflexivity|]. inversion H as [|? ? Hx Hr]; subst.
+  rewrite (IH Hr). f_equal. apply filter_all. intros y Hy.
+  destruct (String.eqb_spec x y) as [->|]; [contradiction|reflexivity].
+Qed.
+
+(* command-line URLs first, in their order; then the file's URLs that are new, in file order *)
+Lemma merge_cli_then_file cli file :
+  merge_urls cli file = dedup cli ++ filter (notin cli) (dedup file).
+Proof. apply dedup_app. Qed.
+
+Lemma merge_keeps_cli cli file : NoDup cli ->
+  exists rest, merge_urls cli file = cli ++ rest /\
+    forall u, In u rest <-> In u file /\ ~ In u cli.
+Proof.
+  intros H. exists (filter (notin cli) (dedup file)). split.
+  - rewrite merge_cli_then_file, (dedup_id _ H). reflexivity.
+  - intros u. rewrite filter_In, dedup_in. unfold notin. rewrite negb_true_iff.
+    split; intros [H1 H2]; split; auto.
+    + intros Hin. assert (E : existsb (String.eqb u) cli = true) by (apply existsb_exists; exists u; split; [exact Hin|apply String.eqb_refl]).
+      congruence.
+    + destruct (existsb (String.eqb u) cli) eqn:E; [|reflexivity]. exfalso. apply H2.
+      apply existsb_exists in E as (z & Hz & Ez). apply String.eqb_eq in Ez. subst. exact Hz.
+Qed.
+
+Lemma merge_no_duplicates cli file :
+  NoDup (merge_urls cli file) /\ forall u, In u (merge_urls cli file) <-> In u cli \/ In u file.
+Proof.
+  unfold merge_urls. split; [apply dedup_nodup|]. intros u. rewrite dedup_in. apply in_app_iff.
+Qed.
+
+Lemma stack_follows_cmdline c sols srcs fls table default no_index stack :
+  build_stack (config_of_cmdline c sols srcs fls table default no_index) = Some stack ->
+  flatten stack = sols ++ srcs ++ fls ++
+    (if no_index then []
+     else (match effective_index c with [] => [default] | l => map (lookup_index table) l end) ++
+          map (lookup_index table) (effective_extra c)).
+Proof.
+  intros H. apply stack_shape in H as [_ H]. rewrite H. unfold expected_pooled, config_of_cmdline. cbn.
+  destruct (effective_index c); reflexivity.
+Qed.
+
+(* ------------------------------------------------------------------------------------ *)
 (* What the pooled sort key implies (listing order only)                                 *)
 
 Lemma pooled_key_later_first i j c1 c2 : (i < j)%nat -> veqb (ver c1) (ver c2) = true ->
@@ -381,6 +469,9 @@ Example ex_pooled_listing :
 Proof. vm_compute. reflexivity. Qed.
 Example ex_falls_through_hyp : falls_through sol1 rq_x_ge2.
 Proof. right; right. eexists; split; vm_compute; reflexivity. Qed.
+Example ex_merge : merge_urls ["http://zeta/simple"; "http://alpha/simple"] ["http://mid/simple"; "http://zeta/simple"]
+  = ["http://zeta/simple"; "http://alpha/simple"; "http://mid/simple"].
+Proof. vm_compute. reflexivity. Qed.
 Example ex_build_stack :
   option_map stack_shape_ids (build_stack (mkCfg [sol1] [] [fl_a; fl_b] [] (mkRepo KIndex 9%N [] []) [] false)) =
   Some [(false, [0%N]); (true, [1%N; 2%N; 9%N])].
